@@ -1072,7 +1072,7 @@ Qed.
 Definition rv_no_visited_chain : revision :=
   {| fix_rollback_replace := true; fix_alias_steal_undo := true; fix_alias_nodes_only := true;
      fix_strict_order := true; fix_slice_clamp := true; fix_edge_origin := true;
-     fix_visited_chain := false; fix_nodes_ids_alias := true |}.
+     fix_visited_chain := false; fix_nodes_ids_alias := true; fix_empty_alias := false |}.
 
 Definition witness2 (r : revision) : db := run_queries r [q_nodes 1; q_edge 1 1; q_edge 1 1].
 
